@@ -813,4 +813,24 @@ def getRows (iters : List Bool) : Outcome Nat :=
   (getRowsLoop iters 0 0 0).bind fun (len, maxVal) =>
     if 0 ≤ maxVal ∧ maxVal ≤ (len : Int) then .ok maxVal.toNat else .panic
 
+/-! ## cell images: value metadata and rich values (`getImageCellRel`, picture.go) -/
+
+/-- `getImageCellRel` for a cell with `vm` and value `#VALUE!`: `vm` is the decoded `uint` attribute (the
+subtraction `*c.Vm-1` wraps at 0), `nBk` = `len(vmd.Bk)` (`none`: no value metadata), `rcLen` = number of
+`<rc>` in the addressed block, `v` = the `v` attribute of its first record (any int), `nRv` = number of
+rich values.  `true` = a rich value was selected. -/
+def imageCellRel (vm : Nat) (nBk : Option Nat) (rcLen : Nat → Nat) (v : Int) (nRv : Nat) : Outcome Bool :=
+  match nBk with
+  | none => .ok false
+  | some n =>
+    if vm > n then .ok false
+    else
+      let i : Nat := if vm = 0 then 18446744073709551615 else vm - 1   -- uint arithmetic
+      if ¬ (i < n) then .panic                                          -- vmd.Bk[*c.Vm-1]
+      else if rcLen i = 0 then .ok false
+      else if ¬ (0 < rcLen i) then .panic                               -- .Rc[0]
+      else if v ≥ (nRv : Int) then .ok false
+      else if ¬ inRange v nRv then .panic                               -- richValue.Rv[richValueIdx]
+      else .ok true
+
 end XlModel.Decode
